@@ -65,6 +65,8 @@ class GenCfg:
     asset: str = "B1"
     first_row: int = 3
     ops: Tuple[str, ...] = ("in", "in", "out", "out", "out", "intra")  # operation mix once something is held
+    bulk_prob: float = 0.0  # probability of a "volume" tail: one funding lot + 60..180 small rows of a few types (template/sheet sizing)
+    shared_uid_prob: float = 0.0  # probability that a row reuses the previous row's unique id (one on-chain hash entered as several rows)
 
 
 ROUND_AMOUNTS = [1, 2, 3, 5, 10, 100]
@@ -248,6 +250,8 @@ def history(draw: Any, cfg: GenCfg = GenCfg()) -> Dict[str, Any]:
             op = draw(st.sampled_from([o for o in cfg.ops if cfg.intra or o != "intra"]))
         price = draw(price_units(palette=palette, wide=cfg.wide))
         uid = f"u{len(state.rows) + 1}"
+        if cfg.shared_uid_prob and state.rows and draw(st.floats(0, 1)) < cfg.shared_uid_prob:
+            uid = state.rows[-1]["uid"]
         if op == "in":
             acc = draw(st.sampled_from(accounts))
             if cfg.force_type_cycle:
@@ -373,12 +377,86 @@ def history(draw: Any, cfg: GenCfg = GenCfg()) -> Dict[str, Any]:
             state.debit(acc, take)
             state.credit_transfer(to_acc, take - fee_units)
 
+    if cfg.bulk_prob and draw(st.floats(0, 1)) < cfg.bulk_prob:
+        _bulk_tail(draw, cfg, state, accounts)
+
     return {
         "asset": cfg.asset,
         "exchanges": exchanges,
         "holders": holders,
         "rows": state.rows,
     }
+
+
+BULK_MIXES: Tuple[Tuple[str, ...], ...] = (
+    ("fee", "lost", "move"),
+    ("fee", "lost", "move"),
+    ("fee", "move"),
+    ("lost", "fee"),
+    ("sell",),
+    ("sell", "gift", "donate", "fee", "lost", "ostaking", "move"),
+    ("interest", "mining", "airdrop"),
+    ("wages", "income", "hardfork", "staking", "sell"),
+)
+
+
+def _bulk_tail(draw: Any, cfg: GenCfg, state: _State, accounts: List[Tuple[str, str]]) -> None:
+    """Volume block appended after the drawn steps: one BUY that funds it, then n small rows whose types cycle through a
+    drawn mix ('move' = transfer with fee, 'ostaking' = OUT/STAKING, earn types = IN rows, the rest = OUT rows).
+    Few random choices, many rows: reaches report-template capacities (e.g. > 95 rows on one tax-report sheet) that
+    step-by-step drawing cannot within Hypothesis' entropy budget."""
+    n = draw(st.integers(60, 180))
+    def usable(token: str) -> bool:
+        if token == "move":
+            return cfg.intra and len(accounts) > 1
+        if token == "ostaking":
+            return "staking" in cfg.out_types
+        if token in model.EARN_TYPES:
+            return token in cfg.in_types
+        return token in cfg.out_types
+
+    mix = [t for t in draw(st.sampled_from(BULK_MIXES)) if usable(t)]
+    if not mix:
+        mix = [cfg.out_types[0]]
+    spacing = draw(st.sampled_from([3600 * US, 7 * 3600 * US, DAY_US, 3 * DAY_US]))
+    acc = draw(st.sampled_from(accounts))
+    other = [a for a in accounts if a != acc][0] if len(accounts) > 1 else acc
+    price = draw(st.integers(1, 5000)) * UNIT
+    piece = draw(st.sampled_from([UNIT // 1000, UNIT // 100, 25 * UNIT // 1000]))
+    off = state.now_off
+    state.now_us += draw(st.integers(1, 40)) * DAY_US
+    state.new_instant()
+    funding = n * 8 * piece
+    state.rows.append({"table": "in", "row": state.next_row, "ts": model.fmt_ts(state.now_us, off), "ex": acc[0], "ho": acc[1], "type": "buy" if "buy" in cfg.in_types else cfg.in_types[0], "price": units_to_str(price), "crypto_in": units_to_str(funding), "uid": f"u{len(state.rows) + 1}"})
+    state.next_row += 1
+    state.credit_in(acc, funding)
+    state.lot_amounts.append(funding)
+    state.lot_instants.append(state.now_us)
+    for i in range(n):
+        state.now_us += spacing
+        state.new_instant()
+        ts = model.fmt_ts(state.now_us, off)
+        kind = mix[i % len(mix)]
+        amount = piece * (1 + i % 7)
+        uid = f"u{len(state.rows) + 1}"
+        row_price = units_to_str(price + (i % 5) * UNIT)
+        if kind == "move":
+            fee = max(1, amount // 10)
+            state.rows.append({"table": "intra", "row": state.next_row, "ts": ts, "from_ex": acc[0], "from_ho": acc[1], "to_ex": other[0], "to_ho": other[1], "price": row_price, "sent": units_to_str(amount), "received": units_to_str(amount - fee), "uid": uid})
+            state.debit(acc, amount)
+            state.credit_transfer(other, amount - fee)
+        elif kind in model.EARN_TYPES:
+            state.rows.append({"table": "in", "row": state.next_row, "ts": ts, "ex": acc[0], "ho": acc[1], "type": kind, "price": row_price, "crypto_in": units_to_str(amount), "uid": uid})
+            state.credit_in(acc, amount)
+            state.lot_amounts.append(amount)
+            state.lot_instants.append(state.now_us)
+        elif kind == "fee":
+            state.rows.append({"table": "out", "row": state.next_row, "ts": ts, "ex": acc[0], "ho": acc[1], "type": "fee", "price": row_price, "out": "0", "fee": units_to_str(amount), "uid": uid})
+            state.debit(acc, amount)
+        else:
+            state.rows.append({"table": "out", "row": state.next_row, "ts": ts, "ex": acc[0], "ho": acc[1], "type": "staking" if kind == "ostaking" else kind, "price": row_price, "out": units_to_str(amount), "fee": "0", "uid": uid})
+            state.debit(acc, amount)
+        state.next_row += 1
 
 
 def _frac_to_str(value: Any) -> str:
